@@ -1,5 +1,5 @@
 """Which obligations decide which property, with which assertions."""
-from . import steps, sweep, kernels, product
+from . import steps, sweep, kernels, product, dbfiles, alloc_kernel
 
 OPS = ["step.bind", "step.list", "step.allocate", "step.claim", "step.release", "step.open", "step.add",
        "step.close", "step.disconnect"]
@@ -167,3 +167,65 @@ PROPS["C18"] = P(
     lambda tier: [dict(ob="prod.config", params=dict(tier=tier), want=["C18."]),
                   dict(ob="step.list", params=dict(tier=tier), want=["C18."]),
                   dict(ob="step.list", params=dict(tier=tier, usage="blur"), want=["C18."])])
+
+
+DB_BOUNDS = lambda tier: dict(
+    crash_points="every numbered environment event (os.path.exists, mkstemp, os.close, rename, shutil.copy in "
+                 "three stages, sqlite3.connect, each SQL statement, each commit) of the real entry point",
+    rows="2 symbolic rows per table (3 in thorough), every column nullable, presence symbolic; version symbolic Int",
+    outside="SQLite's reaction to arbitrary bytes / truncated files beyond 'not a database' and 'empty file'; "
+            "page-level durability; byte-for-byte equality is modelled as 'no commit reached the file and the "
+            "directory listing is unchanged' and confirmed on real files for replayed scenarios")
+DB_ASSUME = [
+    "file-system model: POSIX rename atomic; sqlite3.connect creates an empty file if absent; a crash inside "
+    "shutil.copy leaves a partial (non-database) destination; SQLite commits are atomic",
+    "sqlite3 connections are RelStores bound to a file (committed snapshot persisted at every commit; Python's "
+    "executescript contract: implicit COMMIT first, then autocommit per statement unless the script brackets itself)",
+    "validated on every run: witnesses and every counterexample are replayed on the real file system with real "
+    "sqlite3 through a shim that numbers the same events; the real event sequence must equal the model's",
+]
+
+
+def db_task(ob, params, want):
+    return dict(ob=ob, params=params, want=want, witness_rate=1.0, max_witness=6, jobs=4)
+
+
+PROPS["C19"] = P(
+    "the real _get_db / create_*_db / create_or_upgrade_*_db / open_existing_db on the file-system model: a "
+    "crash at every event of first-time creation leaves nothing (or a complete database) at the path and the "
+    "next start succeeds with the full catalog and version row; an existing current-version database is "
+    "opened with PRAGMAs and SELECTs only and keeps every (symbolic) row; a newer version, a non-database and "
+    "an empty file are rejected without any commit or file-system change; create-only entry points raise "
+    "DBAlreadyExists and the open-only one DBDoesntExist before any connect",
+    lambda tier: [db_task("db.create_crash", dict(name=n, entry=en), ["C19."])
+                  for n in ("channel", "usage") for en in ("get", "create", "upgrade")] +
+                 [db_task("db.open_existing", dict(name=n, kind=k), ["C19."])
+                  for n in ("channel", "usage") for k in ("current", "newer", "junk", "empty")] +
+                 [db_task("db.refuse", dict(which=w_), ["C19."]) for w_ in ("create_existing", "open_missing")],
+    bounds=DB_BOUNDS, assumptions=DB_ASSUME)
+
+PROPS["C20"] = P(
+    "usage v1 store with arbitrary symbolic rows opened by the real _get_db(.., 'usage', 2): backup equals the "
+    "original and is complete before the first upgrade commit; final catalog == catalog of a fresh v2 store; "
+    "every original row intact; for a crash at every event no row is lost and a second _get_db completes the "
+    "upgrade",
+    lambda tier: [db_task("db.upgrade", dict(rows=3 if tier == "thorough" else 2), ["C20."])],
+    bounds=DB_BOUNDS, assumptions=DB_ASSUME)
+
+PROPS["C04"] = P(
+    "allocator kernel translated from the AST of _find_available_nameplate_id (read from /repo on every run): for "
+    "every in-use set (inuse: Int -> Bool), every random outcome and both listing settings the answer is a "
+    "positive decimal, not in use, of the shortest available length among 1-3 digits (4-6 only when all 999 "
+    "are taken), ValueError only after 1000 in-use draws; step(allocate) through the real handler: the "
+    "answer is committed as a nameplate row with a claimed side row before `allocated` is sent, and "
+    "_did_allocate blocks a second allocate",
+    lambda tier: [dict(ob="kernel.allocator", fn=alloc_kernel.run, params={}, want=[]),
+                  dict(ob="step.allocate", params=dict(tier=tier), want=["C04.", "INV.uniq_nameplate_name"]),
+                  dict(ob="step.any", params=dict(tier=tier, types=["allocate"]), want=["C17.proto_error", "C17.no_spurious_error"])],
+    bounds=lambda tier: dict(kernel="all 999 short ids and 1000 random draws, unbounded in-use set (uninterpreted predicate)",
+                             step=STEP_BOUNDS(tier)),
+    assumptions=STEP_ASSUME + ["'%d' % i is injective and canonical (Dec(e) equality is integer equality); "
+                               "_get_nameplate_ids is the in-use set (executed for real in step.allocate / step.list)",
+                               "translator validated on 40 (thorough: 200) concrete in-use sets against the real function"])
+PROPS["C04"]["technique"] = ("AST if-conversion of the allocator into one SMT query per post-condition (z3), plus symbolic "
+                             "execution of the real allocate handler; counterexamples replayed on the real function")
